@@ -362,6 +362,10 @@ def render(prog: dict) -> str:
             lines.append(f"        self.{attr} = nn.LayerNorm({spec[1]}, elementwise_affine=False)")
         elif spec[0] == "Sequential":
             lines.append(f"        self.{attr} = nn.Sequential(nn.Linear({spec[1]}, {spec[1]}, bias={spec[2]}), nn.Tanh(), nn.Linear({spec[1]}, {spec[1]}, bias={spec[2]}))")
+    for s in prog["stmts"]:
+        if s["op"] == "linear" and s.get("tie_to") is not None:
+            # weight tying between two nn.Linear children (one Parameter object reachable under two names)
+            lines.append(f"        self.lin{s['i']}.weight = self.lin{s['tie_to']}.weight")
     lines.append(f"    def forward(self, {', '.join(forward_args(prog))}):")
     for s in prog["stmts"]:
         for ln in _expr(s, prog):
@@ -700,7 +704,7 @@ def evaluate(prog: dict, P: Dict[str, torch.Tensor], inputs: Dict[str, torch.Ten
         i = s.get("i")
         if op == "linear":
             if s["spell"] == "module":
-                w, b = P[f"lin{i}.weight"], P.get(f"lin{i}.bias")
+                w, b = P[f"lin{s['tie_to'] if s.get('tie_to') is not None else i}.weight"], P.get(f"lin{i}.bias")
             elif s["spell"] == "kwweight":
                 w, b = P[f"w{i}"].view(h, h), None
             else:
@@ -827,7 +831,11 @@ class _Builder:
             sp = d(st.sampled_from(self.allow["linear_spells"]))
             bias = False if sp in ("nobias", "kwweight") else d(st.booleans())
             post = "relu_" if ("inplace" in self.allow["extra"] and d(st.integers(0, 5)) == 0) else None
-            return self.emit(op="linear", x=x, i=self.idx(), bias=bias, spell=sp, **({"post": post} if post else {}))
+            extra_ = {"post": post} if post else {}
+            earlier = [s_["i"] for s_ in self.stmts if s_["op"] == "linear" and s_["spell"] == "module" and s_.get("tie_to") is None]
+            if sp == "module" and earlier and "tied" in self.allow["extra"] and d(st.sampled_from([False, True])):
+                extra_["tie_to"] = d(st.sampled_from(earlier))
+            return self.emit(op="linear", x=x, i=self.idx(), bias=bias, spell=sp, **extra_)
         if k == "ulinear":
             return self.emit(op="ulinear", x=x, i=self.idx(), bias=d(st.booleans()), readout=d(st.integers(0, 3)) == 0,
                              constraint=d(st.sampled_from(["default", None, "gmean"])), cspell=d(st.sampled_from(["kw", "pos"])))
@@ -846,7 +854,7 @@ class _Builder:
             if fn in KW_INPUT_FNS and "kwtensors" in self.allow["extra"] and d(st.integers(0, 3)) == 0:
                 s["kw_input"] = True
             if fn == "mulc":
-                s["c"] = d(st.sampled_from([0.5, 2.0, -1.5]))
+                s["c"] = d(st.sampled_from([0.5, 2.0, -1.5, 1.3, 0.77, 1.0001]))   # (ratios on both sides of the pruning tolerances 2^-2, 2^-8, 2^-16)
             if fn == "gelu_mod":
                 s["approximate"] = d(st.sampled_from(["none", "tanh"]))
             return self.emit(**s)
@@ -954,7 +962,7 @@ ALLOW_UNIT = dict(
     shape=["flat", "transpose2", "slice_cat", "rotate_half"],
     add_spells=["plus", "plus", "torch.add", "iadd"],
     plain_add=["fork", "param", "x2"],
-    extra=["inplace", "kwtensors"],
+    extra=["inplace", "kwtensors", "tied"],
 )
 KINDS_UNIT = ["linear", "linear", "seq", "mlp2", "ew", "ew", "ew", "sdpa", "shape", "matmul", "conv1d", "scalar_add", "gate"]
 
@@ -1010,7 +1018,7 @@ ALLOW_QUANT = dict(
     shape=["flat", "transpose2", "slice_cat", "rotate_half"],
     add_spells=["plus", "torch.add", "iadd"],
     plain_add=["fork", "param", "x2"],
-    extra=["usdpa", "inplace", "kwtensors"],
+    extra=["usdpa", "inplace", "kwtensors", "tied"],
 )
 KINDS_QUANT = ["linear", "linear", "linear", "seq", "mlp2", "umlp2", "ulinear", "sdpa", "sdpa", "ew", "ew", "shape", "gate"]
 
@@ -1092,7 +1100,7 @@ ALLOW_TRACK = dict(
     shape=["flat", "transpose2", "slice_cat", "rotate_half", "stack_sum", "mul1", "index", "view"],
     add_spells=["plus", "torch.add"],
     plain_add=["fork", "fork", "param", "x2"],
-    extra=["inplace", "kwtensors"],
+    extra=["inplace", "kwtensors", "tied"],
 )
 KINDS_TRACK = ["linear", "seq", "mlp2", "ew", "ew", "shape", "shape", "shape", "sdpa", "matmul", "intop", "scalar_add", "gate"]
 
@@ -1174,7 +1182,7 @@ def to_fx(prog: dict):
         op = s["op"]
         if op == "linear":
             if s["spell"] == "module":
-                P(f"lin{i}.weight")
+                P(f"lin{s['tie_to'] if s.get('tie_to') is not None else i}.weight")
                 if s["bias"]:
                     P(f"lin{i}.bias")
             else:
@@ -1211,7 +1219,7 @@ def to_fx(prog: dict):
         if op == "linear":
             x = env[s["x"]]
             if s["spell"] == "module":
-                w, b = ph[f"lin{i}.weight"], ph.get(f"lin{i}.bias")
+                w, b = ph[f"lin{s['tie_to'] if s.get('tie_to') is not None else i}.weight"], ph.get(f"lin{i}.bias")
                 env[o] = cf(F.linear, (x, w, b))
             else:
                 w, b = ph[f"w{i}"], (ph[f"b{i}"] if s["bias"] else None)
